@@ -23,6 +23,11 @@ package tsdb
 // retained exemplars inside the range, timestamps non-decreasing; series sorted; none empty), and
 // the integrity of the per-series linked lists (walked with a step bound so that a cycle cannot
 // hang the harness).
+//
+// Configurations: capacity 1..3 x out-of-order window 0, 2, 3, 4. With timestamps 1..4 these are
+// all the window classes (no / one / two / every older timestamp admitted); windows >= 3 are needed
+// for rings in which the slot to overwrite holds the newest-by-time exemplar of a series that has
+// further retained exemplars (acceptance order != time order for >= 3 exemplars of one series).
 
 import (
 	"errors"
@@ -147,10 +152,29 @@ func (m *c21Model) add(e c21Ex) (error, string) {
 	}
 	m.ring = append(m.ring, e)
 	if len(m.ring) > m.cap {
+		out += "+evict-" + c21EvictClass(m.ring[0], e, l)
 		m.ring = m.ring[1:]
-		out += "+evict"
 	}
 	return nil, out
+}
+
+// c21EvictClass says where the evicted exemplar sat relative to the series that is being added to
+// (l = that series' retained exemplars in timestamp order before the add). Coverage bookkeeping
+// only: the run is vacuous unless the interesting classes were reached.
+func c21EvictClass(ev, e c21Ex, l []c21Ex) string {
+	switch {
+	case ev.series != e.series:
+		return "other-series"
+	case len(l) == 1:
+		return "own-only"
+	case l[0].ts == l[len(l)-1].ts:
+		return "own-equal-ts"
+	case ev.ts == l[len(l)-1].ts:
+		return "own-newest"
+	case ev.ts == l[0].ts:
+		return "own-oldest"
+	}
+	return "own-middle"
 }
 
 func (m *c21Model) resize(n int) {
@@ -378,6 +402,11 @@ func (s *c21Sys) observe() *vx.Fail {
 	if f := s.integrity(); f != nil {
 		return f
 	}
+	return s.observePublic()
+}
+
+// observePublic compares what the public API shows (IterateExemplars, Select) with the model.
+func (s *c21Sys) observePublic() *vx.Fail {
 	c21InitQueries()
 	// 1. retained ring in acceptance order
 	var gotBuf [8]int
@@ -553,7 +582,12 @@ func TestVerifC21(t *testing.T) {
 	c21InitOps()
 
 	cfgs := []c21Cfg{}
-	for _, w := range []int64{0, 2} {
+	// Out-of-order windows: with timestamps 1..4 a window w admits the w-1 timestamps directly below
+	// the series' newest one, so 0 (nothing older), 2 (one older timestamp), 3 (two) and 4 (every
+	// older timestamp of the alphabet) are all the classes there are. Only windows >= 3 let a
+	// series hold two out-of-order exemplars below its newest, i.e. let the ring evict the
+	// newest-by-time exemplar of a series that keeps other exemplars and is then added to again.
+	for _, w := range []int64{0, 2, 3, 4} {
 		for _, c := range []int{1, 2, 3} {
 			cfgs = append(cfgs, c21Cfg{fmt.Sprintf("cap%d-window%d", c, w), c, w})
 		}
@@ -615,6 +649,21 @@ func TestVerifC21(t *testing.T) {
 		if f := s.observe(); f == nil || f.Signature != "exemplar-list-cycle" {
 			t.Fatalf("self-test: cycle not detected (%v)", f)
 		}
+		// sabotage the implementation: a per-series "newest" pointer left behind on an older list
+		// element (list links themselves intact). Both the list walk and, independently, the
+		// narrow Selects (start after the stale newest timestamp) must notice.
+		s = c21New(3, 4, nil)
+		if s.Apply("add A@2=1x", true) != nil || s.Apply("add A@4=1x", true) != nil {
+			t.Logf("self-test skipped: preparing adds fail already")
+			return
+		}
+		s.ce.exemplars[0].ref.newest = 0
+		if f := s.integrity(); f == nil || f.Signature != "exemplar-list-corrupt" {
+			t.Fatalf("self-test: stale newest pointer not detected by the list walk (%v)", f)
+		}
+		if f := s.observePublic(); f == nil || f.Signature != "exemplar-select-missing-series" {
+			t.Fatalf("self-test: stale newest pointer not detected through Select (%v)", f)
+		}
 	}()
 
 	sweep := c21LabelSweep(r)
@@ -630,6 +679,12 @@ func TestVerifC21(t *testing.T) {
 	depths := map[string]int{}
 	for _, c := range cfgs {
 		d := vx.Pick(r, 4, 5)
+		if c.Window == 3 {
+			// budget: window 4 admits a superset of the out-of-order timestamps of window 3 and is
+			// searched one operation deeper in the thorough tier; window 3 adds the boundary
+			// "newest-3 rejected, newest-2 admitted" and stays at depth 4 in both tiers.
+			d = 4
+		}
 		depths[c.Name] = d
 		t0 := time.Now()
 		res := r.BFS(c.Name, func() vx.Sys { return c21New(c.Cap, c.Window, note) }, d)
@@ -639,10 +694,12 @@ func TestVerifC21(t *testing.T) {
 	r.Set("depth", depth)
 	r.Set("operations", len(c21OpNames))
 	r.Set("outcome_classes", outcomes)
-	r.Set("rule", fmt.Sprintf("BFS with de-duplication on (reference ring, complete physical ring layout) over all histories of <=%v operations from %d (32 adds: series A/B x ts 1..4 x value 1/2 x labels x/y; 2 adds with a 129-rune label set; 5 resizes 0..4) for capacity 1..3 x out-of-order window 0/2; after every transition: verdicts, retained ring, 27 Selects, list integrity", depth, len(c21OpNames)))
+	r.Set("rule", fmt.Sprintf("BFS with de-duplication on (reference ring, complete physical ring layout) over all histories of <=%v operations from %d (32 adds: series A/B x ts 1..4 x value 1/2 x labels x/y; 2 adds with a 129-rune label set; 5 resizes 0..4) for capacity 1..3 x out-of-order window 0/2/3/4 (none, one, two, all older timestamps of the alphabet admitted); after every transition: verdicts, retained ring, 27 Selects, list integrity", depth, len(c21OpNames)))
 	r.Assume("the reference ring encodes the rules documented in tsdb/exemplar.go comments (duplicate of newest ignored, window relative to the newest retained exemplar, equal-timestamp ordering by value then label hash, out-of-order exemplar with an already retained timestamp ignored)")
 	r.Assume("Head appender paths (head_append.go) that call ValidateExemplar/AddExemplar are not driven; the storage is driven directly")
-	for _, o := range []string{"stored", "stored+evict", "stored-out-of-order", "ignored-duplicate-of-newest", "ignored-out-of-order-same-ts"} {
+	for _, o := range []string{"stored", "stored-out-of-order", "ignored-duplicate-of-newest", "ignored-out-of-order-same-ts",
+		"stored+evict-other-series", "stored+evict-own-only", "stored+evict-own-oldest", "stored+evict-own-middle", "stored+evict-own-newest",
+		"stored-out-of-order+evict-other-series", "stored-out-of-order+evict-own-oldest", "stored-out-of-order+evict-own-newest"} {
 		if outcomes[o] == 0 && r.Violations() == 0 {
 			t.Fatalf("vacuous: outcome class %q never reached (%v)", o, outcomes)
 		}
